@@ -431,6 +431,9 @@ func (ctx drawContext) drawBackground(bg *bo.Background, clipBox bool, bleed bo.
 			})
 		}
 
+		// (the layer of the marks is drawn with the others, but the box keeps its own list:
+		// drawing the page again must not add the marks a second time)
+		layers := bg.Layers
 		if (bleed != bo.Bleed{}) && !marks.IsNone() {
 			x, y, width, height := bg.Layers[len(bg.Layers)-1].PaintingArea.Unpack()
 			svg := headerSVG
@@ -469,10 +472,10 @@ func (ctx drawContext) drawBackground(bg *bo.Background, clipBox bool, bleed bo.
 				Image: image, Size: size, Position: position, Repeat: repeat, Unbounded: unbounded,
 				PaintingArea: paintingArea, PositioningArea: positioningArea,
 			}
-			bg.Layers = append([]bo.BackgroundLayer{layer}, bg.Layers...)
+			layers = append([]bo.BackgroundLayer{layer}, bg.Layers...)
 		}
 		// Paint in reversed order: first layer is "closest" to the viewer.
-		for _, layer := range reversed(bg.Layers) {
+		for _, layer := range reversed(layers) {
 			ctx.drawBackgroundImage(layer, bg.ImageRendering)
 		}
 	})
